@@ -506,13 +506,17 @@ class C11(Prop):
             # grow: add edges to the flag complex, grow, compare with the rebuild
             missing = [e for e in itertools.combinations(range(npts), 2) if e not in edges]
             rnd.shuffle(missing)
-            for batch in (missing[:1], missing[1:3], missing[3:6]):
+            for bi, batch in enumerate((missing[:1], missing[1:3], missing[3:6])):
                 if not batch: continue
                 names = []
                 for (p, q) in batch:
                     nme = 'sE%d_%d' % (p, q); names.append(nme)
                     lines.append('add w [ i%d i%d ] %s -' % (p + 1, q + 1, nme))
                     lines.append('add a [ i%d i%d ] %s -' % (p + 1, q + 1, nme))
+                if bi == 0 and i % 3 == 0:
+                    # a new point among the new simplices (points have no effect on a flag complex)
+                    lines += ['add w [ ] sNEWPT%d -' % i, 'add a [ ] sNEWPT%d -' % i]
+                    names = ['sNEWPT%d' % i] + names
                 lines += ['grow w [ %s ]' % ' '.join(names), 'flag r a', 'check samefam w r growFlagComplex-vs-rebuild', 'check c11 r a']
             scripts.append(lines)
         return scripts, {'exhaustive': False, 'generator': '%d complexes on <= %d points (not only graphs) + hollow spheres + random graphs on 5-7 points with edge batches of size 1-3 grown and rebuilt' % (len(cxs), N)}
@@ -579,6 +583,11 @@ class C12(Prop):
                     w = 'x%d' % k
                     lines += ['vr %s e %s ?' % (w, eps.hex()), 'snap ' + w, 'check c12 %s e %s' % (w, eps.hex())]
             scripts.append(lines)
+        # an embedding whose positions are computed on demand by a subclass, asked for a complex before anyone read a position
+        for k in range(6 if tier == 'quick' else 60):
+            r_, c_ = rnd.randint(2, 3), rnd.randint(1, 3)
+            h_, w_ = rnd.choice([1.0, 2.0, 3.0]), rnd.choice([1.0, 2.0, 4.0])
+            scripts.append(['check c12-lattice %d %d %s %s %s' % (r_, c_, h_.hex(), w_.hex(), rnd.choice([0.5, 1.0, 1.5, 2.5]).hex())])
         return scripts, {'generator': 'the same embedding used again after points moved, were added or all positions cleared; integer-grid, collinear/coincident, decimal and random point sets in 1-3 dimensions, 2-7 points, eps below/at/above pairwise distances (incl. negative and beyond the diameter), Euclidean/Manhattan/Chebyshev'}
 
 # ================================================================ C15
